@@ -311,11 +311,33 @@ impl C07 {
         }
         if len <= 12 {
             let n = len;
-            let areas: Vec<MemoryArea> = (0..n).map(|_| MemoryArea::new(r.next(), r.next(), r.u32())).collect();
+            // the type argument as a raw number and as every symbolic variant
+            let sym = [
+                (MemoryAreaType::Available, 1u32),
+                (MemoryAreaType::Reserved, 2),
+                (MemoryAreaType::AcpiAvailable, 3),
+                (MemoryAreaType::ReservedHibernate, 4),
+                (MemoryAreaType::Defective, 5),
+                (MemoryAreaType::Custom(0x77), 0x77),
+            ];
+            let mut want_types = vec![];
+            let areas: Vec<MemoryArea> = (0..n)
+                .map(|i| {
+                    if i % 2 == 0 {
+                        let t = r.u32();
+                        want_types.push(t);
+                        MemoryArea::new(r.next(), r.next(), t)
+                    } else {
+                        let (t, num) = sym[(i / 2 + ctx.case as usize) % sym.len()];
+                        want_types.push(num);
+                        MemoryArea::new(r.next(), r.next(), t)
+                    }
+                })
+                .collect();
             let t = MemoryMapTag::new(&areas);
             let mut e = Img::mbi(6).u32(24).u32(0);
-            for a in &areas {
-                e = e.u64(a.start_address()).u64(a.size()).u32(u32::from(a.typ())).u32(0);
+            for (a, t) in areas.iter().zip(want_types.iter()) {
+                e = e.u64(a.start_address()).u64(a.size()).u32(*t).u32(0);
             }
             let acc = t.entry_size() == 24 && t.entry_version() == 0 && t.memory_areas() == &areas[..];
             judge(ctx, "MemoryMapTag::new", &*t, &e.done(), MemoryMapTag::ID == TagType::from(6), acc, &J::u(n as u64));
